@@ -70,7 +70,10 @@ pub(crate) struct TipModel<'a> {
     cfg: ClientCfg,
     n_peers: usize,
     /// 0 = fresh (nothing delivered), 1 = all peers proven on the main chain, 2 = split: peer 1
-    /// proven on the main chain one block ahead, peer 2 proven on the competing branch
+    /// proven on the main chain one block ahead, peer 2 proven on the competing branch,
+    /// 3 / 4 = staggered: both on the main chain, peer 1 proven 8 blocks ahead of peer 2 (the stored
+    /// tip is peer 1's), and the announcement of peer 2's next last state (+2: short path, +5:
+    /// sampled path, both still below the stored tip) is in flight
     start: u8,
     base_height: u64,
     track: RefCell<Track>,
@@ -168,6 +171,8 @@ impl<'a> Model for TipModel<'a> {
                 world.add_peer(p, 1, self.base_height - 1);
             } else if self.start == 2 && p == 1 {
                 world.add_peer(p, 0, self.base_height + 1);
+            } else if self.start >= 3 && p == 1 {
+                world.add_peer(p, 0, self.base_height + 8);
             } else if self.start == 2 && p == 2 {
                 world.add_peer(p, 1, self.base_height);
             } else {
@@ -194,6 +199,10 @@ impl<'a> Model for TipModel<'a> {
             }
             if self.start >= 1 {
                 sim.converge(40);
+            }
+            if self.start >= 3 {
+                let k = if self.start == 3 { 2 } else { 5 };
+                sim.set_view(2, 0, self.base_height + k, true);
             }
         }
         let (td, tip, _, _) = Self::stored(&sim);
@@ -448,6 +457,8 @@ impl<'a> Model for TipModel<'a> {
     }
 }
 
+const START_NAMES: [&str; 5] = ["fresh", "proven", "split", "staggered+2", "staggered+5"];
+
 fn parse_ev(s: &str) -> Option<Ev> {
     let (name, a) = bfs::parse_call(s);
     Some(match name.as_str() {
@@ -498,7 +509,7 @@ pub(crate) fn run(opts: &Opts, report: &mut Report) {
     if let Some((config, events)) = opts.replay.as_deref().and_then(bfs::read_replay) {
         let env = Env::dummy();
         let n_peers: usize = config.chars().next().and_then(|c| c.to_digit(10)).unwrap_or(2) as usize;
-        let start = ["fresh", "proven", "split"].iter().position(|s| config.ends_with(s)).unwrap_or(0) as u8;
+        let start = START_NAMES.iter().position(|s| config.ends_with(s)).unwrap_or(0) as u8;
         let m = make_model(&env, n_peers, start);
         let evs: Vec<Ev> = events.iter().filter_map(|e| parse_ev(e)).collect();
         let mut rep = |hist: &[Ev], class: String, detail: String| {
@@ -510,7 +521,7 @@ pub(crate) fn run(opts: &Opts, report: &mut Report) {
         return;
     }
     // (peers, start, max depth)
-    let configs: Vec<(usize, u8, usize)> = if thorough { vec![(2, 1, 5), (2, 0, 5), (2, 2, 5), (3, 1, 4)] } else { vec![(2, 1, 3), (2, 0, 3), (2, 2, 3)] };
+    let configs: Vec<(usize, u8, usize)> = if thorough { vec![(2, 1, 5), (2, 0, 5), (2, 2, 5), (3, 1, 4), (2, 3, 4), (2, 4, 4)] } else { vec![(2, 1, 3), (2, 0, 3), (2, 2, 3), (2, 3, 3), (2, 4, 3)] };
     const SHARDS: usize = 16;
     let n_items = configs.len() * SHARDS;
     let worker = crate::verif::props::shard::run("C12", opts, report, n_items, 16, |item, report| {
@@ -542,7 +553,7 @@ pub(crate) fn run(opts: &Opts, report: &mut Report) {
         } else {
             vec![]
         };
-        let name = format!("{}peers/{}", n_peers, ["fresh", "proven", "split"][start as usize]);
+        let name = format!("{}peers/{}", n_peers, START_NAMES[start as usize]);
         let mut not_judged = 0u64;
         let stats = {
             let mut rep = |hist: &[Ev], class: String, detail: String| {
